@@ -134,11 +134,17 @@ def check(ctx):
                    _iter_source(x) is s1]
             sh = [x for x in (a, b) if x is shifted]
             ok6 = len(el1) == 1 and len(sh) == 1
-    ctx.ob("C05.6", apps[0], ok6,
-           "counterpart = argmin | (stamps_2 + offset) - stamp_1 | over the "
-           "whole second vector" if ok6 else
-           f"counterpart index is not argmin|stamps_2+offset-stamp_1|: "
-           f"{fmt(idx2)}", key="C05.6:argmin", index=fmt(idx2))
+    if ok6:
+        ctx.ob("C05.6", apps[0], True,
+               "counterpart = argmin | (stamps_2 + offset) - stamp_1 | over "
+               "the whole second vector", key="C05.6:argmin",
+               index=fmt(idx2))
+    else:
+        # a different search (windowed, sorted-search, ...) may be correct:
+        # not judged
+        ctx.undecidable("C05.6", apps[0], f"nearest-counterpart search is "
+                        f"not the recognised argmin over the whole shifted "
+                        f"vector: {fmt(idx2)}")
     for e in apps:
         cmps = comparisons(e.live)
         want = (tm.sub(diffs, idx2), "LtE", maxd) if diffs is not None \
